@@ -3,7 +3,7 @@ def _c13(id, harness, params=None, tier="quick", **kw):
     return spec("C13/" + id, harness, params, tier=tier, **kw)
 
 PROPS["C13"] = {
-    "bounds": "framing: 1..2 frames per connection, each a 4-byte big-endian length (symbolic, constrained to the class: = payload length / > 500 MiB / <= 500 MiB with a bad prefix / payload length+1..2 / truncated to 1..3 bytes / 0 / a well-formed list pickle in the MARK..LIST layout that checkProtocol does not accept) and a payload of 6..25 bytes (a list of 1..2 integers with symbolic content, or one valid item with a symbolic name, in each of the 4 pickle layouts checkProtocol accepts), read through a reader stub that delivers the stream in <= 3 segments with both cut positions arbitrary (1 frame) / <= 2 segments with the cut arbitrary (2 frames) / one byte per Read (2 frames), last bytes optionally together with io.EOF; thorough: 2 frames x 2 arbitrary cuts, and 1 frame of every kind except the 18..29-byte valid-item frame (i.e. streams of 4..10 bytes) under the full segmentation stub of C12 (every Read a solver-chosen count, EOF or timeout error); one concrete-length run with two 4.2 KB frames (payload > the 4096-byte read chunk) over 14x14 cut positions. item handling: the decoder result is an arbitrary structure: a list of 1..2 items (thorough 3), one item ranging over all shapes over {Tuple, list, string, int64, float64, *big.Int, None, bool, dict} to depth 3 (item not a sequence; length 0/1/3; name of every non-string type; data not a sequence; data length 0/1/3; nested sequences as data elements; every pair of timestamp/value types incl. the 5 non-scalar types; all 4 tuple/list combinations), the other items from 4 neighbour shapes; strings symbolic (0..2 bytes); formatting with concrete numbers: 10 int64 (0, 255/256, 2^31, 2^40, negative, MinInt64), 9 float64 (rounding cases of %.0f, 1e21, +Inf), 2^64+1 as long timestamp, all 4x3 type pairs",
+    "bounds": "framing: 1..2 frames per connection, each a 4-byte big-endian length (symbolic, constrained to the class: = payload length / > 500 MiB / <= 500 MiB with a bad prefix / payload length+1..2 / truncated to 1..3 bytes / 0 / a well-formed list pickle in the MARK..LIST layout that checkProtocol does not accept) and a payload of 6..25 bytes (a list of 1..2 integers with symbolic content, or one valid item with a symbolic name, in each of the 4 pickle layouts checkProtocol accepts), read through a reader stub that delivers the stream in <= 3 segments with both cut positions arbitrary (1 frame) / <= 2 segments with the cut arbitrary (2 frames) / one byte per Read (2 frames), last bytes optionally together with io.EOF; thorough: 2 frames x 2 arbitrary cuts, and 1 frame of every kind except the 18..29-byte valid-item frame (i.e. streams of 4..10 bytes) under the full segmentation stub of C12 (every Read a solver-chosen count, EOF or timeout error); one concrete-length run with two 4.2 KB frames (payload > the 4096-byte read chunk) over 14x14 cut positions; two connections on one handler (as the listener runs them): A's one-item frame cut at 6 positions, B's whole two-item frame delivered in between, 4 pickle layouts, symbolic one-byte names. item handling: the decoder result is an arbitrary structure: a list of 1..2 items (thorough 3), one item ranging over all shapes over {Tuple, list, string, int64, float64, *big.Int, None, bool, dict} to depth 3 (item not a sequence; length 0/1/3; name of every non-string type; data not a sequence; data length 0/1/3; nested sequences as data elements; every pair of timestamp/value types incl. the 5 non-scalar types; all 4 tuple/list combinations), the other items from 4 neighbour shapes; strings symbolic (0..2 bytes); formatting with concrete numbers: 10 int64 (0, 255/256, 2^31, 2^40, negative, MinInt64), 9 float64 (rounding cases of %.0f, 1e21, +Inf), 2^64+1 as long timestamp, all 4x3 type pairs",
     "outside": "agreement with CPython's pickle encoder (protocols 0-4) and the correctness of the third-party og-rek decoder are outside the claim: in the engine (*ogórek.Decoder).Decode is replaced by a model that returns the structure the harness registered for exactly the bytes the decoder is handed (and an error for any other bytes); natively the replay runs the real og-rek on pickles produced by the harness's own small encoder. Go types og-rek never produces (uint8..uint64, int8..int32, float32, Go nil) are not generated. Observed while reading og-rek (not checked): BININT is decoded unsigned (a negative 32-bit int arrives as 2^32-n); the PROTO version check is dead code. Frames between 26 bytes and the chunk boundary run, lengths between payload+3 and 500 MiB with a good prefix (would need a stream of that size), more than 2 frames per connection, liveness (Peek blocks until 3 bytes of the next frame arrive)",
     "assumptions": [
         "og-rek maps Python list -> []interface{}, tuple -> ogórek.Tuple, str/unicode -> string, int -> int64, long -> *big.Int, float -> float64, None -> ogórek.None, bool -> bool, dict -> map[interface{}]interface{} (its documented types); Decode on empty input returns io.EOF and on a truncated pickle io.ErrUnexpectedEOF (read off og-rek's source)",
@@ -33,6 +33,7 @@ PROPS["C13"] = {
         {"pkg": "input", "hdir": "input", "specs": [
             _c13("items/long-value", "VerifC13LongValue"),
             _c13("framing/truncated-pickle", "VerifC13TruncatedPickle"),
+            _c13("two-connections-one-handler", "VerifC13TwoConnections"),
         ]},
         {"pkg": "input", "hdir": "input", "specs": [
             _c13("items/shapes/items<=3", "VerifC13Items", {"items": "3"}, tier="thorough"),
